@@ -48,7 +48,9 @@ package authenticators
 
 // call sites of cache.Cache.Set (requires ttl > 0)
 //@ func (*jwtAuthenticator).getKey
-//@   props C10
+//@   props C10 C05
+//@   logged gk
+//@   ensures ret1 == nil ==> (cget.n > old(cget.n) && cget.ret1[cget.n - 1] == nil) || (vjwk.n == old(vjwk.n) + 1 && vjwk.arg1[old(vjwk.n)] == ret0 && vjwk.ret0[old(vjwk.n)] == nil)
 
 // C11 / C05: whatever introspection response is used - fetched or taken from the cache - it has been
 // validated against the assertions of *this* instance (ghost log ival = IntrospectionResponse.Validate);
@@ -64,6 +66,7 @@ package authenticators
 
 //@ iface (SubjectFactory).CreateSubject
 //@   props C01 C04 C05
+//@   logged csub
 //@   ensures ret1 == nil ==> ret0 != nil
 
 // ---- C04: fallback on error is exactly what the rule says, else what the catalogue says ----
@@ -134,6 +137,8 @@ package authenticators
 //@   ensures ret1 == nil ==> tclaims.n == old(tclaims.n) + 1 && tclaims.arg0[old(tclaims.n)] == token && tclaims.arg1[old(tclaims.n)] == iface(key) && tclaims.ret0[old(tclaims.n)] == nil
 //@   ensures ret1 == nil ==> cval.n == old(cval.n) + 1 && cval.ret0[old(cval.n)] == nil && cval.arg1[old(cval.n)] == *assertions
 //@   ensures ret1 == nil ==> jm.n > old(jm.n) && ret0 == jm.ret0[jm.n - 1]
+//@   ensures ret1 != nil ==> len(ret0) == 0
+//@   ensures ret1 == nil ==> len(ret0) > 0
 
 // ---- C04: an authenticator reports an argument-kind error (the kind that lets the next
 // authenticator be consulted) only when it found no usable credentials of its kind: the extraction
@@ -159,15 +164,35 @@ package authenticators
 //@   ensures gad.n > old(gad.n) && Is(gad.ret1[old(gad.n)], heimdall.ErrArgument) ==> Is(ret1, heimdall.ErrArgument)
 
 //@ func (*jwtAuthenticator).Execute
-//@   props C04
+//@   props C04 C05
 //@   ensures Is(ret1, heimdall.ErrArgument) ==> gad.n > old(gad.n) && (gad.ret1[old(gad.n)] != nil || (jparse.n > old(jparse.n) && jparse.ret1[old(jparse.n)] != nil))
 //@   ensures gad.n > old(gad.n) && Is(gad.ret1[old(gad.n)], heimdall.ErrArgument) ==> Is(ret1, heimdall.ErrArgument)
+//@   ensures ret1 == nil ==> vt.n == old(vt.n) + 1 && vt.ret1[old(vt.n)] == nil
+//@   ensures ret1 == nil ==> jparse.n == old(jparse.n) + 1 && vt.arg2[old(vt.n)] == jparse.ret0[old(jparse.n)]
+//@   ensures ret1 == nil ==> gad.n == old(gad.n) + 1 && jparse.arg0[old(jparse.n)] == gad.ret0[old(gad.n)]
+//@   ensures ret1 == nil ==> csub.n == old(csub.n) + 1 && csub.arg1[old(csub.n)] == vt.ret0[old(vt.n)] && ret0 == csub.ret0[old(csub.n)] && csub.arg0[old(csub.n)] == old(a.sf)
 
-// the precondition of verifyTokenWithKey (a parsed token has a header) at its call sites
+// the precondition of verifyTokenWithKey (a parsed token has a header) at its call sites.
+// C05: "subject id and attributes come from the verified claims only": what verifyToken hands back
+// on success is the result of a successful verifyTokenWithKey of this very token (ghost log vtk),
+// whether the key was looked up by kid or found by trying the fetched key set.
 //@ func (*jwtAuthenticator).verifyToken
 //@   props C04 C05
+//@   logged vt
 //@   requires len(token.Headers) > 0
+//@   ensures ret1 == nil ==> vtk.n > old(vtk.n) && vtk.arg1[vtk.n - 1] == token && vtk.ret1[vtk.n - 1] == nil && ret0 == vtk.ret0[vtk.n - 1]
+//@   ensures ret1 == nil ==> (vjwk.n > old(vjwk.n) && vjwk.arg1[vjwk.n - 1] == vtk.arg2[vtk.n - 1] && vjwk.ret0[vjwk.n - 1] == nil) || (gk.n == old(gk.n) + 1 && gk.ret1[old(gk.n)] == nil && vtk.arg2[vtk.n - 1] == gk.ret0[old(gk.n)])
 
 //@ func (*jwtAuthenticator).verifyTokenWithoutKID
 //@   props C04 C05
 //@   requires len(token.Headers) > 0
+//@   ensures ret1 == nil ==> vtk.n > old(vtk.n) && vtk.arg1[vtk.n - 1] == token && vtk.ret1[vtk.n - 1] == nil && ret0 == vtk.ret0[vtk.n - 1]
+//@   loop 0 invariant len(rawClaims) == 0
+//@   ensures ret1 == nil ==> vjwk.n > old(vjwk.n) && vjwk.arg1[vjwk.n - 1] == vtk.arg2[vtk.n - 1] && vjwk.ret0[vjwk.n - 1] == nil
+
+// "a key obtained from the configured key-set endpoint": the key a token is verified with has
+// passed validateJWK (certificate chain against the trust store, when configured) in this call, or
+// comes from the cache, where only keys that passed it are put (getKey, C10/C11).
+//@ func (*jwtAuthenticator).validateJWK
+//@   props C05
+//@   logged vjwk
